@@ -287,6 +287,15 @@ enum V {
     Suspense { fb: Option<String>, transition: bool, kids: Vec<V> },
     Await(usize, Vec<V>),
     Eb(Vec<V>),
+    /// `Suspend::new(async { once_resource.await; (V…) })`
+    ResSuspend(usize, Vec<V>),
+    /// `move || res.get().map(|_| (V…))`, res = OnceResource ('o') / Resource ('r') / AsyncDerived ('d')
+    ResRead(char, usize, Vec<V>),
+    /// a LocalResource read by a boundary's children: `move || local.get()` (true) or awaited first thing in a
+    /// Suspend (false)
+    LocalRead(bool),
+    /// `Suspend::new(async { rx_k.await; local.await; … })`
+    LocalAwait(usize),
 }
 
 fn parse_views(toks: &[&str], i: &mut usize) -> Option<Vec<V>> {
@@ -332,6 +341,22 @@ fn parse_views(toks: &[&str], i: &mut usize) -> Option<Vec<V>> {
                 out.push(V::Await(f, body(i)?))
             }
             "B" if arg == "[" => out.push(V::Eb(body(i)?)),
+            "u" => {
+                let f = arg.strip_suffix('[')?.parse().ok()?;
+                out.push(V::ResSuspend(f, body(i)?))
+            }
+            "g" => {
+                let a = arg.strip_suffix('[')?;
+                let kind = a.chars().next()?;
+                if !matches!(kind, 'o' | 'r' | 'd') {
+                    return None;
+                }
+                let f = a[1..].parse().ok()?;
+                out.push(V::ResRead(kind, f, body(i)?))
+            }
+            "L" if arg.is_empty() => out.push(V::LocalRead(true)),
+            "M" if arg.is_empty() => out.push(V::LocalRead(false)),
+            "W" => out.push(V::LocalAwait(arg.parse().ok()?)),
             _ => return None,
         }
     }
@@ -444,7 +469,89 @@ fn build(v: &V, env: &Env) -> AnyView {
             }
             .into_any()
         }
+        V::ResSuspend(k, kids) => {
+            let rx = env.rx(*k);
+            let res = OnceResource::new(async move {
+                let _ = rx.await;
+                7u32
+            });
+            let kids = kids.clone();
+            let env = env.clone();
+            Suspend::new(async move {
+                let _d = res.await;
+                build_all(&kids, &env)
+            })
+            .into_any()
+        }
+        V::ResRead(kind, k, kids) => {
+            let rx = env.rx(*k);
+            let kids = kids.clone();
+            let env = env.clone();
+            match kind {
+                'o' => {
+                    let res = OnceResource::new(async move {
+                        let _ = rx.await;
+                        7u32
+                    });
+                    (move || res.get().map(|_| build_all(&kids, &env))).into_any()
+                }
+                'r' => {
+                    let res = Resource::new(
+                        || (),
+                        move |_| {
+                            let rx = rx.clone();
+                            async move {
+                                let _ = rx.await;
+                                7u32
+                            }
+                        },
+                    );
+                    (move || res.get().map(|_| build_all(&kids, &env))).into_any()
+                }
+                _ => {
+                    let res = AsyncDerived::new(move || {
+                        let rx = rx.clone();
+                        async move {
+                            let _ = rx.await;
+                            7u32
+                        }
+                    });
+                    (move || res.get().map(|_| build_all(&kids, &env))).into_any()
+                }
+            }
+        }
+        V::LocalRead(sync) => {
+            let local = LocalResource::new(|| async { 1u8 });
+            if *sync {
+                (move || local.get().map(|d| leptos::html::i().child(format!("local{d}")))).into_any()
+            } else {
+                Suspend::new(async move {
+                    let d = local.await;
+                    leptos::html::i().child(format!("local{d}"))
+                })
+                .into_any()
+            }
+        }
+        V::LocalAwait(k) => {
+            let rx = env.rx(*k);
+            let local = LocalResource::new(|| async { 1u8 });
+            Suspend::new(async move {
+                let _ = rx.await;
+                let d = local.await;
+                leptos::html::i().child(format!("local{d}"))
+            })
+            .into_any()
+        }
     }
+}
+
+/// a LocalResource is read by the children of this boundary: on the server it keeps its fallback
+fn has_local(kids: &[V]) -> bool {
+    kids.iter().any(|k| match k {
+        V::LocalRead(_) | V::LocalAwait(_) => true,
+        V::El(_, k) | V::Tup(k) | V::List(k) | V::Eb(k) => has_local(k),
+        _ => false,
+    })
 }
 
 /// the same view with every asynchronous part replaced by its resolved content: the
@@ -457,7 +564,15 @@ fn build_resolved(v: &V) -> AnyView {
         V::Tup(kids) => all(kids),
         V::List(kids) => kids.iter().map(build_resolved).collect::<Vec<AnyView>>().into_any(),
         V::Suspend(_, kids) | V::Await(_, kids) | V::Eb(kids) => all(kids),
-        V::Suspense { kids, .. } => all(kids),
+        V::ResSuspend(_, kids) | V::ResRead(_, _, kids) => all(kids),
+        V::Suspense { fb, kids, .. } => {
+            if has_local(kids) {
+                fb_view(fb.clone())
+            } else {
+                all(kids)
+            }
+        }
+        V::LocalRead(_) | V::LocalAwait(_) => ().into_any(),
     }
 }
 
@@ -473,6 +588,8 @@ fn has_eb(v: &V) -> bool {
         V::Text(_) => false,
         V::Eb(_) => true,
         V::El(_, k) | V::Tup(k) | V::List(k) | V::Suspend(_, k) | V::Await(_, k) => k.iter().any(has_eb),
+        V::ResSuspend(_, k) | V::ResRead(_, _, k) => k.iter().any(has_eb),
+        V::LocalRead(_) | V::LocalAwait(_) => false,
         V::Suspense { kids, .. } => kids.iter().any(has_eb),
     }
 }
@@ -481,11 +598,13 @@ fn has_nested_suspend(c: Ctx, v: &V) -> bool {
     match v {
         V::Text(_) => false,
         V::El(_, k) | V::Tup(k) | V::List(k) | V::Eb(k) => k.iter().any(|x| has_nested_suspend(c, x)),
-        V::Suspend(_, k) => match c {
+        V::Suspend(_, k) | V::ResSuspend(_, k) => match c {
             Ctx::Top => k.iter().any(|x| has_nested_suspend(Ctx::Top, x)),
             Ctx::Direct => k.iter().any(|x| has_nested_suspend(Ctx::Nested, x)),
             Ctx::Nested => true,
         },
+        V::ResRead(_, _, k) => k.iter().any(|x| has_nested_suspend(c, x)),
+        V::LocalRead(_) | V::LocalAwait(_) => false,
         V::Suspense { kids, .. } => kids.iter().any(|x| has_nested_suspend(Ctx::Direct, x)),
         // <Await> = <Suspense><Suspend>…: its children are the output of a Suspend under a Suspense
         V::Await(_, k) => k.iter().any(|x| has_nested_suspend(Ctx::Nested, x)),
@@ -504,9 +623,9 @@ struct Facts {
 
 fn direct_deps(v: &V, out: &mut Vec<usize>) {
     match v {
-        V::Text(_) | V::Suspense { .. } | V::Await(..) => {}
+        V::Text(_) | V::Suspense { .. } | V::Await(..) | V::LocalRead(_) | V::LocalAwait(_) => {}
         // `Suspend::resolve` resolves its output too (fix-c07-4)
-        V::Suspend(k, kids) => {
+        V::Suspend(k, kids) | V::ResSuspend(k, kids) | V::ResRead(_, k, kids) => {
             out.push(*k);
             kids.iter().for_each(|x| direct_deps(x, out))
         }
@@ -536,11 +655,32 @@ fn facts(v: &V, need: &Vec<usize>, region: &Option<Option<String>>, f: &mut Fact
     match v {
         V::Text(s) => f.content.push((s.clone(), need.clone())),
         V::El(_, k) | V::Tup(k) | V::List(k) | V::Eb(k) => k.iter().for_each(|x| facts(x, need, region, f)),
-        V::Suspend(k, kids) | V::Await(k, kids) => {
+        V::Suspend(k, kids) | V::Await(k, kids) | V::ResSuspend(k, kids) | V::ResRead(_, k, kids) => {
             let mut need2 = need.clone();
             need2.push(*k);
             let r2 = region_token(kids).map(Some);
             kids.iter().for_each(|x| facts(x, &need2, &r2, f));
+        }
+        V::LocalRead(_) | V::LocalAwait(_) => {}
+        V::Suspense { fb, kids, .. } if has_local(kids) => {
+            // the fallback stays for good (usize::MAX is never sent); the children are never shown
+            if let (Some(fb), Some(region)) = (fb, region) {
+                f.boundaries.push((fb.clone(), vec![usize::MAX], region.clone()));
+            }
+            let mut toks = vec![];
+            fn all_tokens(v: &V, out: &mut Vec<String>) {
+                match v {
+                    V::Text(s) => out.push(s.clone()),
+                    V::El(_, k) | V::Tup(k) | V::List(k) | V::Eb(k) | V::Suspend(_, k) | V::Await(_, k)
+                    | V::ResSuspend(_, k) | V::ResRead(_, _, k) => k.iter().for_each(|x| all_tokens(x, out)),
+                    V::Suspense { kids, .. } => kids.iter().for_each(|x| all_tokens(x, out)),
+                    V::LocalRead(_) | V::LocalAwait(_) => {}
+                }
+            }
+            kids.iter().for_each(|x| all_tokens(x, &mut toks));
+            for t in toks {
+                f.content.push((t, vec![usize::MAX]));
+            }
         }
         V::Suspense { fb, kids, .. } => {
             let mut deps = vec![];
@@ -932,6 +1072,16 @@ fn ser_views(vs: &[V], out: &mut Vec<String>) {
             ),
             V::Await(f, k) => (format!("A{f}["), k),
             V::Eb(k) => ("B[".into(), k),
+            V::ResSuspend(f, k) => (format!("u{f}["), k),
+            V::ResRead(kind, f, k) => (format!("g{kind}{f}["), k),
+            V::LocalRead(sync) => {
+                out.push(if *sync { "L".into() } else { "M".into() });
+                continue;
+            }
+            V::LocalAwait(f) => {
+                out.push(format!("W{f}"));
+                continue;
+            }
         };
         out.push(head);
         ser_views(kids, out);
@@ -967,7 +1117,7 @@ impl Gen {
             return self.leaf();
         }
         self.budget -= 1;
-        match self.r.below(if can_async { 12 } else { 4 }) {
+        match self.r.below(if can_async { 16 } else { 4 }) {
             0 | 1 => self.leaf(),
             2 => {
                 let tag = *self.r.pick(&["div", "section", "p", "span"]);
@@ -1003,10 +1153,35 @@ impl Gen {
                 let n = self.r.range(1, 2);
                 V::Await(k, (0..n).map(|_| self.view(depth - 1, max_f, Ctx::Nested, allow_known)).collect())
             }
-            _ => {
+            11 => {
                 if allow_known {
                     let n = self.r.range(1, 3);
                     V::Eb((0..n).map(|_| self.view(depth, max_f, ctx, allow_known)).collect())
+                } else {
+                    self.leaf()
+                }
+            }
+            12 | 13 => {
+                // a server resource: read synchronously by the children of a boundary, otherwise awaited in a Suspend
+                let k = self.fut();
+                let n = self.r.range(1, 2);
+                if ctx == Ctx::Direct {
+                    let kind = *self.r.pick(&['o', 'r', 'd']);
+                    V::ResRead(kind, k, (0..n).map(|_| self.view(depth - 1, max_f, Ctx::Direct, allow_known)).collect())
+                } else {
+                    let inner = if ctx == Ctx::Top { Ctx::Top } else { Ctx::Nested };
+                    V::ResSuspend(k, (0..n).map(|_| self.view(depth - 1, max_f, inner, allow_known)).collect())
+                }
+            }
+            14 => {
+                let k = self.fut();
+                let inner = if ctx == Ctx::Top { Ctx::Top } else { Ctx::Nested };
+                V::ResSuspend(k, vec![self.view(depth - 1, max_f, inner, allow_known)])
+            }
+            _ => {
+                // a LocalResource read by the children of a boundary (sync read / awaited first): the fallback stays
+                if ctx == Ctx::Direct && self.r.chance(1, 2) {
+                    V::LocalRead(self.r.chance(1, 2))
                 } else {
                     self.leaf()
                 }
@@ -1177,7 +1352,9 @@ fn async_nodes(vs: &[V]) -> usize {
             V::Text(_) => 0,
             V::Suspend(_, k) => 1 + async_nodes(k),
             V::Await(_, k) => 2 + async_nodes(k),
-            V::El(_, k) | V::Tup(k) | V::List(k) | V::Eb(k) => async_nodes(k),
+            V::El(_, k) | V::Tup(k) | V::List(k) | V::Eb(k) | V::ResRead(_, _, k) => async_nodes(k),
+            V::ResSuspend(_, k) => 1 + async_nodes(k),
+            V::LocalRead(_) | V::LocalAwait(_) => 1,
             V::Suspense { kids, .. } => 1 + async_nodes(kids),
         })
         .sum()
@@ -1192,6 +1369,12 @@ fn futs_of_views(vs: &[V], out: &mut Vec<usize>) {
                 futs_of_views(kids, out)
             }
             V::El(_, k) | V::Tup(k) | V::List(k) | V::Eb(k) => futs_of_views(k, out),
+            V::ResSuspend(f, kids) | V::ResRead(_, f, kids) => {
+                out.push(*f);
+                futs_of_views(kids, out)
+            }
+            V::LocalRead(_) => {}
+            V::LocalAwait(f) => out.push(*f),
             V::Suspense { kids, .. } => futs_of_views(kids, out),
         }
     }
@@ -1225,6 +1408,9 @@ const SHAPES_B: &[&str] = &[
     "l[ s1[ eb[ t7631 ] ] q[ s2[ ei[ t7632 ] ] ep[ t6131 ] ] s3[ eem[ t7633 ] ] ]",
     // depth 3 and four futures
     "ediv[ s1[ Sfb1[ s2[ eb[ t7632 ] ] Tfb2[ s3[ ei[ t7633 ] ] ] ] ep[ t7631 ] ] S-[ s4[ eem[ t7634 ] ] ] ]",
+    // resource kinds under boundaries: sync reads (OnceResource, Resource), a Suspend awaiting a resource, a boundary
+    // that reads a LocalResource (keeps its fallback), one where the local read wins over a server resource
+    "ediv[ Sfb1[ go1[ ei[ t7631 ] ] ep[ t6331 ] ] u2[ eb[ t7632 ] ] Tfb2[ L ep[ t6332 ] ] Sfb3[ gr3[ eem[ t7633 ] ] M ] ]",
 ];
 
 fn gen(seed: u64, n: usize, path: &str, tier: &str) -> std::io::Result<()> {
@@ -1287,7 +1473,17 @@ fn gen(seed: u64, n: usize, path: &str, tier: &str) -> std::io::Result<()> {
         let mode = if g.r.chance(1, 2) { "ooo" } else { "io" };
         let max_f = g.r.range(1, 5);
         let nv = g.r.range(1, 3);
-        let vs: Vec<V> = (0..nv).map(|_| g.view(3, max_f, Ctx::Top, false)).collect();
+        let mut vs: Vec<V> = (0..nv).map(|_| g.view(3, max_f, Ctx::Top, true)).collect();
+        if g.r.chance(1, 3) {
+            // a LocalResource awaited after another future: the boundary's future resolves to None late
+            // (the poll at which it does depends on futures::select!'s random order: free mode only)
+            let k = g.fut();
+            let fb = g.tok("fb");
+            let other = g.leaf();
+            let b = V::Suspense { fb: Some(fb), transition: g.r.chance(1, 4), kids: vec![V::LocalAwait(k), other] };
+            let at = g.r.below(vs.len() + 1);
+            vs.insert(at, b);
+        }
         let mut futs = vec![];
         futs_of_views(&vs, &mut futs);
         if futs.is_empty() {
